@@ -14,11 +14,18 @@ VERSION = {"2": 2, "3.0": 3.0, "3.1": 3.1, "4.0": 4.0}
 
 
 class Out(object):
-    def __init__(self):
+    """stdout stand-in; with an encoding it refuses what that encoding cannot represent, as a real stream does"""
+
+    def __init__(self, encoding=None):
         self.buf = []
+        self.encoding = encoding
 
     def write(self, s):
-        self.buf.append(s if not isinstance(s, bytes) else s.decode("utf-8", "replace"))
+        if isinstance(s, bytes):
+            s = s.decode("utf-8", "replace")
+        if self.encoding:
+            s.encode(self.encoding)          # raises UnicodeEncodeError like a stream opened with that encoding
+        self.buf.append(s)
         return len(s)
 
     def flush(self):
@@ -59,7 +66,7 @@ class In(object):
 def session(it):
     from cvss.interactive import ask_interactively
     events = []
-    out = Out()
+    out = Out(it.get("encoding"))
     inp = In([unesc(a) for a in it["script"]], out, events)
     old = sys.stdin, sys.stdout, sys.stderr
     err = Out()
